@@ -110,7 +110,7 @@ impl St {
                 self.consume(a);
                 self.total += a;
                 self.rec = false;
-                self.fully = false;
+                self.fully = self.end == self.pos;
                 self.justfin = true;
                 self.dropped += 1;
             } else {
@@ -125,7 +125,7 @@ impl St {
         self.cap - self.end
     }
     /// Phase B — the reader returned `size` bytes. `Some(outcome)` when the loop returns.
-    pub fn post(&mut self, c: Consts, inp: &Input, size: usize, cbl: &mut Vec<usize>) -> Option<Out> {
+    pub fn post(&mut self, c: Consts, inp: &Input, space: usize, size: usize, cbl: &mut Vec<usize>) -> Option<Out> {
         self.src += size;
         self.fill(size);
         if size == 0 {
@@ -133,7 +133,7 @@ impl St {
                 // fall through to normal parsing
             } else if self.fully {
                 return Some(Out::Ok { cb: self.cb, dropped: self.dropped });
-            } else if !self.tried {
+            } else if space == 0 && !self.tried {
                 let nc = self.cap.saturating_mul(2);
                 if nc > c.max {
                     self.rec = true;
@@ -191,7 +191,7 @@ pub fn run_sync(c: Consts, inp: &Input, plan: &[usize]) -> (Out, ReadLog, Vec<us
         };
         let n = space.min(lim).min(inp.data.len() - s.src);
         log.push((space, n));
-        if let Some(o) = s.post(c, inp, n, &mut cbl) {
+        if let Some(o) = s.post(c, inp, space, n, &mut cbl) {
             return (o, log, cbl);
         }
         assert!(log.len() < 10_000_000, "bufmodel: run_sync does not terminate");
@@ -215,7 +215,7 @@ pub fn run_async(c: Consts, inp: &Input, chunks: &[usize]) -> (Out, ReadLog, Vec
         let n = space.min(s.chunk_left);
         s.chunk_left -= n;
         log.push((space, n));
-        if let Some(o) = s.post(c, inp, n, &mut cbl) {
+        if let Some(o) = s.post(c, inp, space, n, &mut cbl) {
             return (o, log, cbl);
         }
         assert!(log.len() < 10_000_000, "bufmodel: run_async does not terminate");
@@ -254,7 +254,7 @@ pub fn all_outcomes_sync(c: Consts, inp: &Input, stats: &mut SearchStats) -> Vec
             if space > 0 {
                 p.push(n);
             }
-            match t.post(c, inp, n, &mut cbl) {
+            match t.post(c, inp, space, n, &mut cbl) {
                 Some(o) => {
                     outs.entry(o).or_insert(p);
                 }
@@ -296,7 +296,7 @@ pub fn all_outcomes_async(c: Consts, inp: &Input, stats: &mut SearchStats) -> Ve
             let n = space.min(t.chunk_left);
             t.chunk_left -= n;
             stats.transitions += 1;
-            match t.post(c, inp, n, &mut cbl) {
+            match t.post(c, inp, space, n, &mut cbl) {
                 Some(o) => {
                     outs.entry(o).or_insert(p);
                 }
